@@ -436,8 +436,10 @@ class P15(SessionPlan):
     def extra_cases(self, tier, seed):
         ks = (1, 2, 5, 60, 600, 65535)
         periods = 8 if tier == "quick" else 200
-        for k, prof, model in itertools.product(ks, ("pub", "sub", "pubsub"), MODELS):
-            cfg = Cfg(profile=prof, model=model)
+        for k, prof, model, late in itertools.product(ks, ("pub", "sub", "pubsub"), MODELS, (0.0, 0.25)):
+            if late and prof != "pubsub":
+                continue
+            cfg = Cfg(profile=prof, model=model, late=late)
             pre = [("build", 0), ("connect", 0, True, k, 4), ("connack", 0, 0, False)]
             eps = min(0.25, k / 8.0)
             for off in ("eps", "half", "late-in-time", "exact", "late", "never", "twice", "unsolicited"):
